@@ -89,6 +89,8 @@ fn voting_thread(
                 tracks,
                 monitor,
             } => {
+                #[cfg(feature = "similari_verif")]
+                crate::verif::point("vote.job.begin", scene_id);
                 let voting = VisualVoting::new(
                     match metric_opts.positional_kind {
                         PositionalMetricType::Mahalanobis => MAHALANOBIS_NEW_TRACK_THRESHOLD,
@@ -146,11 +148,15 @@ fn voting_thread(
                 if let Err(e) = res {
                     warn!("Unable to send results to a caller, likely the caller already closed the channel. Error is: {:?}", e);
                 }
+                #[cfg(feature = "similari_verif")]
+                crate::verif::point("vote.after_send", scene_id);
 
                 let (lock, cvar) = &*monitor;
                 let mut lock = lock.lock().unwrap();
                 *lock -= 1;
                 cvar.notify_one();
+                #[cfg(feature = "similari_verif")]
+                crate::verif::point("vote.monitor.dec", scene_id);
             }
             VotingCommands::Exit => break,
         }
@@ -227,6 +233,8 @@ impl BatchVisualSort {
             Mutex::new(batch_request.batch_size()),
             Condvar::new(),
         )));
+        #[cfg(feature = "similari_verif")]
+        crate::verif::point("batch.begin", batch_request.batch_size() as u64);
 
         for (i, (scene_id, observations)) in batch_request.get_batch().iter().enumerate() {
             let mut percentages = Vec::default();
@@ -313,6 +321,8 @@ impl BatchVisualSort {
                     tracks,
                 })
                 .expect("Sending voting request to voting thread must not fail");
+            #[cfg(feature = "similari_verif")]
+            crate::verif::point("batch.dispatched", *scene_id);
         }
     }
 
